@@ -45,14 +45,15 @@ HASHSEEDS = ("1", "4242", "random", "0")
 def _case(draw, shard):
     from vp.checks.c05 import _counts, _row_params
 
-    n = draw(st.integers(2, 4))
+    n = draw(st.integers(3, 6))
     dims = draw(st.integers(1, 2))
     rows = []
     for m in range(n):
         for s in range(dims):
             major, minor, normal, t, eps = draw(_row_params())
-            ref, alt = draw(_counts())
-            rows.append(dict(mutation_id="mut_%s" % "abcdefgh"[m], sample_id="s%d" % s, ref_counts=ref % 500, alt_counts=alt % 500, major_cn=major, minor_cn=minor, normal_cn=normal, tumour_content=t, error_rate=eps))
+            depth = draw(st.sampled_from([100, 60, 300]))
+            alt = min(depth, draw(st.sampled_from([37, 5, 80, 20, 50])) + 7 * m)
+            rows.append(dict(mutation_id="mut_%s" % "abcdefgh"[m], sample_id="s%d" % s, ref_counts=depth - alt, alt_counts=alt, major_cn=major, minor_cn=minor, normal_cn=normal, tumour_content=t, error_rate=eps))
     chains = [2, 3, 2, 1, 3, 2][shard % 6]
     variants = []
     for v in range(3):
@@ -67,8 +68,8 @@ def _case(draw, shard):
         chains=chains,
         seed=(draw(st.integers(0, 2 ** 31 - 1)) + 7919 * shard) % (2 ** 31),
         proposal=PROPS[shard % 3],
-        outlier_prob=[0.0, 0.01][(shard // 2) % 2],
-        iters=draw(st.integers(2, 6)),
+        outlier_prob=[0.7, 0.0, 0.3][(shard // 2) % 3],
+        iters=draw(st.integers(3, 8)),
         N=draw(st.integers(2, 5)),
         subtree_prob=draw(st.sampled_from([0.0, 0.5])),
         conc_update=draw(st.booleans()),
@@ -149,6 +150,10 @@ def evaluate(case):
         if sorted(ref) != list(range(case["chains"])):
             raise Violation("chains-missing", "trace holds chains %r, expected 0..%d" % (sorted(ref), case["chains"] - 1), tags)
         classes = ["chains=%d" % case["chains"], "prop:" + case["proposal"]]
+        if any(len(e[3]) >= 2 for seq in ref.values() for e in seq):
+            classes.append("trace-entry-with>=2-outliers")
+        if case["outlier_prob"] > 0:
+            classes.append("outliers-on")
         nontrivial = False
         for (name, hs, aff, delays) in runs[1:]:
             st_, got = outs[name]
